@@ -7,6 +7,10 @@
 //!   nb <number> <timestamp_ms> <uncles>   -> <epoch full value> <compact target> R <block reward> [E <number> <base> <rem> <hr> <start> <len>]
 //!        (`R`: `block_reward(number)` of the EpochExt the node stored for this block; the `E …` part at
 //!         the first block of an epoch: the stored EpochExt)
+//!   nrewind <k>                            -> ok     the following `nb` lines extend the branch that forks off
+//!        `k` blocks below the current tip (the displaced blocks stay in the node as a side branch; the
+//!        new branch's blocks are side blocks until it is heavier, then the node reorganises and verifies
+//!        them all contextually; the first displaced block becomes an uncle candidate)
 //!   nv <epoch full value> <compact target> -> ok | number-mismatch | target-mismatch
 //!        a candidate child of the tip with these two header fields is offered to the real node
 //!        (`blocking_process_block` -> `ContextualBlockVerifier` -> contextual `EpochVerifier`); the answer
@@ -78,6 +82,16 @@ fn consensus_of(c: &Cfg) -> Consensus {
         .build()
 }
 
+#[derive(Clone)]
+struct Snap {
+    tip: BlockView,
+    epoch_uncles: u64,
+    epoch_reward_sum: u128,
+    epoch_reward_want: u128,
+    epoch_blocks: u64,
+    epochs_done: u64,
+}
+
 struct Sim {
     cfg: Cfg,
     consensus: Consensus,
@@ -96,6 +110,11 @@ struct Sim {
     epoch_reward_sum: u128,
     epoch_reward_want: u128,
     epoch_blocks: u64,
+    /// state before each of the last blocks of the followed branch (for `nrewind`)
+    snaps: Vec<Snap>,
+    /// the followed branch is not (yet) the node's best chain
+    forking: bool,
+    reorgs: u64,
 }
 
 impl Sim {
@@ -125,7 +144,7 @@ impl Sim {
             ),
             "ok",
         );
-        Sim { cfg, consensus, node, builder, tip: g, pool: vec![], included: HashSet::new(), salt: 0, epoch_uncles: 0, epochs_done: 0, accepted: 0, rejected_variants: 0, epoch_reward_sum: quiet_reward(&e0, 0).unwrap_or(0) as u128, epoch_reward_want: initial_want, epoch_blocks: 1 }
+        Sim { cfg, consensus, node, builder, tip: g, pool: vec![], included: HashSet::new(), salt: 0, epoch_uncles: 0, epochs_done: 0, accepted: 0, rejected_variants: 0, epoch_reward_sum: quiet_reward(&e0, 0).unwrap_or(0) as u128, epoch_reward_want: initial_want, epoch_blocks: 1, snaps: vec![], forking: false, reorgs: 0 }
     }
 
     /// epoch number the block after the tip will be in
@@ -183,7 +202,34 @@ impl Sim {
     }
 
     /// one block with this timestamp and exactly `nunc` uncles; `variants`: also submit off-by-one copies
+    /// continue on the branch forking off `k` blocks below the tip
+    fn rewind(&mut self, out: &mut Out, k: usize) {
+        assert!(k >= 1 && k <= self.snaps.len(), "malformed sequence: nrewind {k} with {} states kept", self.snaps.len());
+        let idx = self.snaps.len() - k;
+        let displaced = if k >= 2 { self.snaps[idx + 1].tip.clone() } else { self.tip.clone() };
+        let sn = self.snaps[idx].clone();
+        self.snaps.truncate(idx);
+        self.tip = sn.tip;
+        self.epoch_uncles = sn.epoch_uncles;
+        self.epoch_reward_sum = sn.epoch_reward_sum;
+        self.epoch_reward_want = sn.epoch_reward_want;
+        self.epoch_blocks = sn.epoch_blocks;
+        self.epochs_done = sn.epochs_done;
+        // uncle candidates whose parent is not on the new branch are useless; the first displaced block is one
+        let f = self.tip.number();
+        self.pool.retain(|u| u.number() <= f + 1);
+        self.pool.push(displaced);
+        self.forking = true;
+        out.op(&format!("nrewind {k}"), "ok");
+        out.count("rewind");
+    }
+
     fn step(&mut self, out: &mut Out, ts: u64, nunc: usize, variants: bool) {
+        let variants = variants && !self.forking;
+        self.snaps.push(Snap { tip: self.tip.clone(), epoch_uncles: self.epoch_uncles, epoch_reward_sum: self.epoch_reward_sum, epoch_reward_want: self.epoch_reward_want, epoch_blocks: self.epoch_blocks, epochs_done: self.epochs_done });
+        if self.snaps.len() > 64 {
+            self.snaps.remove(0);
+        }
         let avail = self.available_uncles();
         assert!(avail.len() >= nunc, "malformed sequence: {} uncles requested, {} available", nunc, avail.len());
         let uncles: Vec<BlockView> = avail.into_iter().take(nunc).collect();
@@ -233,7 +279,16 @@ impl Sim {
             }
         }
         let r = self.node.process(&blk);
-        if r != Ok(true) || self.node.tip_hash() != blk.hash() {
+        let is_tip = self.node.tip_hash() == blk.hash();
+        if self.forking && is_tip {
+            // the node reorganised onto the followed branch: every block of it passed the contextual verifier
+            self.forking = false;
+            self.reorgs += 1;
+            out.count("reorg-adopted");
+        } else if self.forking {
+            out.count("side-block");
+        }
+        if r != Ok(true) || (!is_tip && !self.forking) {
             out.oracle_fail("valid-block-rejected", &format!("{op}: {:?}", r));
             out.op(&op, "rejected");
             panic!("node rejected a block built by the repo's own calculators: {op}: {r:?}");
@@ -376,6 +431,16 @@ fn run_generated(out: &mut Out, rng: &mut Rng, base: &std::path::Path, cfg: Cfg,
             policy = gen_policy(rng, &cfg, e.length());
         }
         let in_epoch_pos = if sim.tip.number() == 0 || new_epoch { 0 } else { e.index() + 1 };
+        // fork episodes: leave the best chain a few blocks below the tip — preferably below an epoch
+        // boundary just crossed, so that the new branch ends the epoch with other statistics — and go on
+        // with another pace / uncle policy until the node has reorganised onto the new branch
+        if !sim.forking && !sim.snaps.is_empty() && sim.tip.number() > 0 && ((!new_epoch && e.number() > 0 && e.index() < 3 && rng.chance(1, 2)) || rng.chance(1, 50)) {
+            let k = (rng.range(1, 6) as usize).min(sim.snaps.len());
+            sim.rewind(out, k);
+            ts = sim.tip.timestamp();
+            policy = gen_policy(rng, &cfg, sim.tip.epoch().length().max(1));
+            continue;
+        }
         ts += if rng.chance(1, 10) { rng.range(1, policy.dt * 2) } else { policy.dt };
         let want = if policy.unc_every > 0 && in_epoch_pos % policy.unc_every == policy.unc_every - 1 { policy.unc_n } else { 0 };
         let nunc = want.min(sim.available_uncles().len());
@@ -383,6 +448,17 @@ fn run_generated(out: &mut Out, rng: &mut Rng, base: &std::path::Path, cfg: Cfg,
         let variants = new_epoch || in_epoch_pos + 1 == e.length() || rng.chance(1, 40);
         sim.step(out, ts, nunc, variants);
     }
+    // a fork episode still open at the end: extend until the node has adopted the branch (bounded)
+    let mut extra = 0;
+    while sim.forking && extra < 40 {
+        extra += 1;
+        ts += policy.dt;
+        sim.step(out, ts, 0, false);
+    }
+    if sim.forking {
+        out.count("fork-not-adopted");
+    }
+    out.extra.insert("reorgs".into(), (out.extra.get("reorgs").and_then(|v| v.as_u64()).unwrap_or(0) + sim.reorgs).into());
     let r = (sim.accepted, sim.rejected_variants, sim.epochs_done);
     sim.finish();
     r
@@ -415,6 +491,10 @@ pub fn run(opts: &Opts) {
                     let s = sim.as_mut().expect("ninit first");
                     assert_eq!(parse_u(t[1]), s.tip.number() + 1, "malformed sequence: block numbers must be consecutive");
                     s.step(&mut out, parse_u(t[2]), parse_u(t[3]) as usize, false);
+                }
+                "nrewind" => {
+                    let s = sim.as_mut().expect("ninit first");
+                    s.rewind(&mut out, parse_u(t[1]) as usize);
                 }
                 "nv" => {
                     let s = sim.as_mut().expect("ninit first");
